@@ -6,6 +6,8 @@ import random
 import shutil
 
 from vlib import common
+from vlib import session_common as ssn
+from vlib import spec1d_common as sc1
 
 PID = "C02"
 R = math.sqrt(2.0) / 2.0
@@ -188,6 +190,20 @@ def run(tier):
         if not okdemo:
             chk.machinery("binding demonstration failed")
 
+        # histories of one object (SpectrumSession.tla behaviours): e(f) and the four moments after queries interleaved with
+        # in-place changes must be those of a new object holding the same data -----------------------------------------------
+        sessions = sc1.tlc_sessions(chk, quick, chk.seed)
+
+        def _conv(s, lo, hi):
+            one = s.as_frequency_spectrum()
+            return np.stack([np.asarray(one.hm0(lo, hi).values), np.asarray(one.tm01(lo, hi).values), np.asarray(one.mean_direction(lo, hi).values)])
+        nrep, nq = ssn.freshness_replay(chk, sessions[:70] if quick else sessions, rng, [("2d/8 directions", ssn.build_2d), ("2d/12 directions from 7.5", lambda a, b, c: ssn.build_2d(a, b, c, ndir=12, start=7.5))],
+                                        [("e", lambda s, lo, hi: s.e), ("a1", lambda s, lo, hi: s.a1), ("b1", lambda s, lo, hi: s.b1),
+                                         ("a2", lambda s, lo, hi: s.a2), ("b2", lambda s, lo, hi: s.b2), ("hm0", lambda s, lo, hi: s.hm0(lo, hi)),
+                                         ("1D conversion (Hm0, Tm01, mean direction)", _conv)], "C02")
+        chk.add("spec_traces_replayed", nrep)
+        chk.set("session_queries_compared", nq)
+        evals += nq
         chk.set("evaluations", evals)
         chk.set("distinct_nontrivial", nontrivial)
         chk.assume("exact moments only on octant grids (energy at multiples of 45 degrees); general grids (8..144 bins, uniform or not) enter "
